@@ -4,7 +4,7 @@
     sentinel and is tiled EXACTLY by free-list nodes and objects, the free list is strictly increasing,
     coalesced (no two chunks adjacent), sizes positive and aligned, all mark bits clear. *)
 From Coq Require Import ZArith List Permutation.
-From ChibiV Require Import Gen.C10_Consts C10.Model C10.Spec C10.Proofs C10.Sweep C10.Theorems C10.More C10.Oom C10.SizeClass C10.Examples.
+From ChibiV Require Import Gen.C10_Consts C10.Model C10.Spec C10.Proofs C10.Sweep C10.Theorems C10.More C10.Oom C10.SizeClass C10.Examples C10.Closed.
 Import ListNotations.
 Local Open Scope Z_scope.
 
@@ -127,3 +127,26 @@ Theorem grow_formula_aligned : forall cur size, 0 <= cur -> (unit_sz | cur) -> 0
   (unit_sz | grow_formula cur size) /\ hdr_sz + size <= grow_formula cur size.
 Proof. exact grow_formula_aligned_lemma. Qed.
 Print Assumptions grow_formula_aligned.
+
+(** round 2: CLOSEDNESS for the sweep step, and the interface between the mark phase (C02), the weak pass (C16) and
+    the sweep.  [sl] = the slot contents of the objects (strong / weak = ephemeron key / extra = ephemeron value),
+    ANY function; [marked_addrs st] = the (heap, offset) of the objects that carry a mark at sweep entry;
+    [marks_closed M sl]: M is closed under the strong slots of marked objects and under the values of the marked
+    ephemerons one of whose keys is alive (what sexp_mark + sexp_mark_weak_extras must deliver);
+    [reset_slots M] = sexp_reset_weak_references on one object.  Then the objects after the sweep are exactly the
+    marked ones and EVERY slot of every one of them designates one of them. *)
+Theorem sweep_inv_closed : forall st st' mf sf sl,
+  heaps st <> [] -> Forall heap_inv (heaps st) ->
+  marks_closed (marked_addrs st) sl ->
+  sweep st = Some (st', mf, sf) ->
+  obj_addrs st' = marked_addrs st /\
+  closed (obj_addrs st') (fun a => reset_slots (marked_addrs st) (sl a)).
+Proof. exact sweep_inv_closed_lemma. Qed.
+Print Assumptions sweep_inv_closed.
+
+(** the premise is necessary for the strong slots: a closed result forces the marks to be closed under them (the
+    premise check on the heap dumps is not stronger than the property) *)
+Theorem marks_closed_strong_necessary : forall M sl,
+  closed M (fun a => reset_slots M (sl a)) -> forall a, In a M -> forall b, In (Some b) (strong (sl a)) -> In b M.
+Proof. exact strong_closed_necessary. Qed.
+Print Assumptions marks_closed_strong_necessary.
